@@ -89,6 +89,8 @@ FINDINGS = [
     {"id": "C29-KF14", "targets": ("arm:thumb",), "sig": ("TypeError", "arch/encoding.py:__init__"),
      "detail": r"N arguments given, but <class 'ppci\.arch\.arm\.thumb_instructions\.StrN'> expects N",
      "pred": lambda case: _module_facts(case)["max_call_args"] > 4},
+    {"id": "C29-KF15", "targets": RV, "sig": ("AssertionError", "arch/token.py:__setitem__"),
+     "detail": r"encoding (Slli|Srai)\w*: field value negative", "desc_fix": "_mask_negative_shift_counts"},
     {"id": "C29-KF11", "targets": ARM, "floats": True,
      "sigs": [("KeyError", "arch/arch.py:get_reg_class", r"ir-typ fN"), ("KeyError", "codegen/irdag.py:new_vreg", r"ir-typ fN"), ("NotImplementedError", "codegen/irdag.py:do_return", r"Pass pointer as first arg instead"),
               SEL + (r"\w*F(32|64)\w*(\([\w,]*\))?",)]},
@@ -158,6 +160,24 @@ def excluded_classes(target):
             rx = f["classes"][target] if isinstance(f["classes"], dict) else f["classes"]
             out.append((re.compile(rx), f["id"]))
     return out
+
+
+def _mask_negative_shift_counts(desc):
+    """C29-KF15: i32 '<<' / '>>' by a negative constant -> the count operand becomes a fresh constant in 0..31"""
+    n = 0
+    for fd in desc["functions"]:
+        val = {i[1]: i[3] for b in fd["blocks"] for i in b["ins"] if i[0] == "const" and isinstance(i[3], int)}
+        for b in fd["blocks"]:
+            out = []
+            for ins in b["ins"]:
+                if ins[0] == "binop" and ins[4] in ("<<", ">>") and ins[2] == "i32" and val.get(ins[5], 0) < 0:
+                    nn = "%s_k%d" % (ins[1], n)
+                    out.append(["const", nn, "i32", val[ins[5]] & 31])
+                    ins = ins[:5] + [nn]
+                    n += 1
+                out.append(ins)
+            b["ins"] = out
+    return n
 
 
 def excluded_instructions(target):
@@ -270,6 +290,9 @@ def ir_case(draw, target, level, opt, counts):
                     if f["ins"](ins):
                         b["ins"][i] = f["repl"](ins)
                         counts["excluded:" + f["id"]] += 1
+    for f in FINDINGS:
+        if target in f["targets"] and f.get("desc_fix") and f["id"] in open_finding_ids(PID):
+            counts["excluded:" + f["id"]] += globals()[f["desc_fix"]](desc)
     bad = cgstage.restrict(desc, allowed, counts)
     case = {"kind": "ir", "module": desc, "target": target, "level": level, "opt": opt}
     if bad:
